@@ -16,7 +16,7 @@ import numpy as np
 from vf import lops
 from vf.monitors import STATE
 from vf.oracles.algebra import Spec
-from vf.common import Plan, crandn, held, violated, inconclusive, rng_for, nrm, inner
+from vf.common import pick, Plan, crandn, held, violated, inconclusive, rng_for, nrm, inner
 
 SPEC = {
     "rule": ("cases = one operator description each: every leaf class of sigpy.linop / "
@@ -46,6 +46,15 @@ def plan(tier, seed):
             if d is None:
                 continue
             P.add("leaf:" + kind, desc=d, dt=_dtype(rng))
+    # size- and magnitude-dependent regime: lengths past 16 / 32, more than three batch /
+    # coil / channel entries, probes scaled by 1e-8 / 1e+8 (the identity is homogeneous)
+    for kind in lops.LEAF_KINDS:
+        rng = P.rng("big:" + kind)
+        for i in range(5 if tier == "quick" else 60):
+            d = lops.gen_leaf(rng, kind, None, 34)
+            if d is None:
+                continue
+            P.add("big:" + kind, desc=d, dt=_dtype(rng), mag=pick(rng, [1, 1, 1e-8, 1e8]))
     rng = P.rng("tree")
     for i in range(ntrees):
         depth = int(rng.integers(1, 4 if tier == "quick" else 5))
@@ -111,6 +120,8 @@ def run_case(case):
                     x.reshape(-1)[int(rng.integers(x.size))] = 1
                 if y.size:
                     y.reshape(-1)[int(rng.integers(y.size))] = 1 if dt.kind != "c" else 1j
+            if case.get("mag", 1) != 1:
+                x, y = x * x.dtype.type(case["mag"]), y * y.dtype.type(case["mag"])
             STATE.peak = 0.0
             Ax = A(x)
             AHy = AH(y)
